@@ -1151,3 +1151,36 @@ Proof.
   destruct (run_inv fx ops empty_state [] H0 eq_refl Hp Hok) as [[Hwf Ha] Hub].
   split; [exact Hwf|]. split; [exact Ha|]. intros t Ht Hl. apply Hub; auto. unfold run. rewrite Ha by auto. exact Hl.
 Qed.
+
+(* ------------------------------------------------------------------------------------------------ witnesses *)
+(* F1: the unrepaired cofaces_simplex_range (fx = false) returns no star for a simplex of maximal dimension *)
+Lemma star_top_dim_refuted_lemma :
+  exists ops s, ok_history ops = true /\ cmem (spec_run ops) s = true /\
+                cofaces_unlinked false (run false ops) s 0 = [] /\ In s (star (spec_run ops) s) /\
+                cofaces_linked (run false ops) s 0 = [s].
+Proof. exists [OInsertSub [0] 3], [0]. repeat split; try reflexivity. left; reflexivity. Qed.
+(* F2: removing the last vertex leaves the cached dimension at 0 with no recomputation pending *)
+Lemma dimension_after_emptying_refuted_lemma :
+  exists ops, ok_history ops = true /\ spec_run ops = [] /\
+              snd (dimension (run false ops)) <> cdim (spec_run ops) /\ eq_empty (run false ops) = false.
+Proof. exists [OInsertSub [0] 3; ORemove [0]]. repeat split; try reflexivity. cbn. lia. Qed.
+(* F3: expansion of the empty tree *)
+Lemma expansion_empty_dimension_refuted_lemma :
+  exists ops, ok_history ops = true /\ spec_run ops = [] /\ snd (dimension (run false ops)) = 0 /\ cdim (spec_run ops) = -1.
+Proof. exists [OExpand 3]. repeat split; reflexivity. Qed.
+(* the repaired model on the same three histories *)
+Lemma repaired_on_witnesses :
+  cofaces_unlinked true (run true [OInsertSub [0] 3]) [0] 0 = [[0]] /\
+  snd (dimension (run true [OInsertSub [0] 3; ORemove [0]])) = -1 /\
+  snd (dimension (run true [OExpand 3])) = -1.
+Proof. repeat split; reflexivity. Qed.
+
+(* non-vacuity: a history over 5 vertices that uses every refined operation and satisfies the hypotheses *)
+Definition example_history : list op :=
+  [OBatch [4; 0] 1; OInsertSub [3; 1; 2] 2; OInsertSub [0; 1] 3; OInsert [0; 2] 5; ODim; OInsertSub [2; 1; 3] 1;
+   ORemove [1; 2; 3]; OPruneD 1; OInsertSub [0; 1; 2] 7; OPruneF 5; ORemove [4]; ODim; OInsertSub [1; 2; 3; 4] 0;
+   OPruneD 2; OClear; OInsert [7] 0].
+Lemma example_history_ok :
+  forallb refined_op example_history = true /\ ok_history example_history = true /\
+  length (spec_run (firstn 14 example_history)) = 17%nat.
+Proof. repeat split; vm_compute; reflexivity. Qed.
